@@ -3,7 +3,8 @@
    the differential run of checks/C03.py (same histories on ADF, HDF5 and the extracted model); together these
    give "same answers, same child SETS" for the two back ends. *)
 From Coq Require Import ZArith List.
-From CgnsV Require Import TreeDB TreeDBProofs.
+From CgnsV Require Import TreeDB TreeDBProofs BackendDiff BackendDiffProofs.
+Import ListNotations.
 Local Open Scope Z_scope.
 
 Theorem C03_policy_only_in_rename : forall t o, (forall p u nm, o <> ORename p u nm) ->
@@ -17,3 +18,40 @@ Theorem C03_rename_same_answer_same_nodes : forall t p u nm, WFt t ->
             find_node (fst (step_table false t (ORename p u nm))) v.
 Proof. exact rename_policies_same_nodes. Qed.
 Print Assumptions C03_rename_same_answer_same_nodes.
+
+(* ---- node names: the two validators (ADF_Create / ADF_Put_Name vs ADFH's check_name), transcribed in BackendDiff.v *)
+
+(* on the documented common subset (1..32 printable characters, no '/', no blank at either end, not ".") both back
+   ends accept the name and store exactly it, at creation and at rename *)
+Theorem C03_names_agree : forall put s, common_name s = true -> adf_name put s = NOk s /\ adfh_name s = NOk s.
+Proof. exact names_agree. Qed.
+Print Assumptions C03_names_agree.
+
+(* for EVERY string at creation, and every string without a leading blank at rename: whenever both back ends
+   accept it they store the same name.  (no_skip put s := put = true -> s does not start with a blank) *)
+Theorem C03_names_same_when_both_accept : forall put s a b, no_skip put s ->
+  adf_name put s = NOk a -> adfh_name s = NOk b -> a = b.
+Proof. exact names_same_when_both_accept. Qed.
+Print Assumptions C03_names_same_when_both_accept.
+
+(* for EVERY string ADF accepts, HDF5 accepts it with the same stored name -- unless that name is "." *)
+Theorem C03_adf_names_accepted_by_hdf5_except_dot : forall put s a, no_skip put s ->
+  adf_name put s = NOk a -> a <> [DOT] -> adfh_name s = NOk a.
+Proof. exact adf_subset_of_adfh. Qed.
+Print Assumptions C03_adf_names_accepted_by_hdf5_except_dot.
+
+(* outside the common subset the two back ends do differ (the full-strength "every name" statement is false of the
+   code; the four classes are replayed on the library on every run) *)
+Theorem C03_names_refuted :
+  (adf_name false [46] = NOk [46] /\ adfh_name [46] = NErr INVALID_NODE_NAME) /\              (* "." *)
+  (adf_name false (32 :: repeat 97 32) = NErr STRING_LENGTH_TOO_BIG /\
+   adfh_name (32 :: repeat 97 32) = NOk (repeat 97 32)) /\                                     (* " " ++ 32 x 'a' *)
+  (adf_name false [9; 97] = NErr INVALID_NODE_NAME /\ adfh_name [9; 97] = NOk [97]) /\          (* TAB-led *)
+  (adf_name false [97; 1; 98] = NErr INVALID_NODE_NAME /\ adfh_name [97; 1; 98] = NOk [97; 1; 98]) /\ (* control char *)
+  (* ADF_Put_Name validates " a" as "a" but stores " a"; ADF_Create and HDF5 store "a": no_skip is necessary *)
+  (adf_name true [32; 97] = NOk [32; 97] /\ adf_name false [32; 97] = NOk [97] /\ adfh_name [32; 97] = NOk [97]).
+Proof. vm_compute. repeat split. Qed.
+Print Assumptions C03_names_refuted.
+
+Example C03_names_example : common_name [90; 111; 110; 101; 32; 49] = true.       (* "Zone 1" *)
+Proof. reflexivity. Qed.
